@@ -112,6 +112,7 @@ class Linker:
 
         # Create new object file to store output:
         self.dst = ObjectFile(self.arch)
+        self.section_data_copies = []
         if debug:
             self.dst.debug_info = DebugInfo()
 
@@ -155,6 +156,7 @@ class Linker:
 
             self.do_relaxations()
             self.do_relocations()
+            self.update_section_data_copies()
 
         if self.reporter:
             self.report_link_result()
@@ -336,6 +338,7 @@ class Linker:
                     )
 
                     section.add_data(src_section.data)
+                    self.section_data_copies.append((section, src_section))
 
                     current_address += section.size
                     image.add_section(section)
@@ -366,6 +369,15 @@ class Linker:
                     f"Memory exceeds size ({image.size} > {mem.size})"
                 )
             self.dst.add_image(image)
+
+    def update_section_data_copies(self):
+        """Refresh the SECTIONDATA copies of sections.
+
+        The copy is the load image of a section, so it must contain the
+        section contents after relocation.
+        """
+        for section, src_section in self.section_data_copies:
+            section.data[:] = src_section.data
 
     def get_symbol_value(self, symbol_id):
         """Get value of a symbol from object or fallback"""
